@@ -523,6 +523,9 @@ class MailboxSet(MailboxSetInterface[MailboxData]):
 
     async def set_subscribed(self, name: str, subscribed: bool) -> None:
         self._check_name(name, MailboxNotFound)
+        if subscribed and ('\r' in name or '\n' in name):
+            # the subscriptions file holds one name per line
+            raise MailboxNotFound(name)
         async with Subscriptions.with_write(self._path) as subs:
             subs.set(name, subscribed)
 
@@ -531,7 +534,7 @@ class MailboxSet(MailboxSetInterface[MailboxData]):
             subscribed = frozenset(subs.subscribed)
         mailboxes = [name for name in self._layout.list_folders(self.delimiter)
                      if name in subscribed]
-        return ListTree(self.delimiter).update('INBOX', *mailboxes)
+        return ListTree(self.delimiter).update(*mailboxes)
 
     async def list_mailboxes(self) -> ListTree:
         mailboxes = self._layout.list_folders(self.delimiter)
